@@ -1066,6 +1066,15 @@ class PolyhedralTermList(TermList):  # noqa: WPS338
                 res = linprog(
                     c=objective, A_ub=a_opt, b_ub=b_opt, bounds=(None, None), options={"presolve": False}
                 )
+            if res["status"] == 0 and -res["fun"] <= b_temp[i] - 1:  # noqa: WPS309
+                # The row looks redundant. With large constants the relaxation by 1 is close to the
+                # resolution of the presolved solve, so confirm the optimum without presolve before
+                # discarding the row.
+                confirmation = linprog(
+                    c=objective, A_ub=a_opt, b_ub=b_opt, bounds=(None, None), options={"presolve": False}
+                )
+                if confirmation["status"] == 0:
+                    res = confirmation
             b_temp[i] -= 1
             if res["status"] == 0 and -res["fun"] <= b_temp[i]:  # noqa: WPS309
                 logging.debug("Can remove")
